@@ -216,7 +216,7 @@ Definition worker (cl : cluster) (i : nat) (m : lmsg) (retain : bool) (clk : Z) 
   let n := getn cl i in
   let n1 := if retain then
               (if String.eqb (l_payload m) "" then mutate n (ret_delete (n_d n) (l_topic m) clk)
-               else mutate n (ret_set (n_d n) (Publish (l_topic m) (l_payload m) (l_qos m) true) clk))
+               else mutate n (ret_set (n_d n) (Publish (l_topic m) (l_payload m) (l_qos m) true (l_dup m)) clk))
             else n in
   let '(c2, o, failed) := distribute (setn cl i n1) i m in
   (c2, (o ++ if failed then [] else ackp)%list).
@@ -309,7 +309,7 @@ Definition setup (cl : cluster) (i : nat) (c cid user pass : string) (ka : Z) (w
     let n1 := match owner n mp cid with Some m => mutate n (sess_delete (n_d n) (m_sid m) clk) | None => n end in
     let r := sess_create (n_d n1) id cid mp will clk in
     match snd r with
-    | None => (setn cl1 i n1, [Closed c; Deadline c 3000])          (* Create failed: setup returns the error, the connection is closed *)
+    | None => (setn cl1 i n1, [Closed c])          (* Create failed: setup returns the error, the connection is closed *)
     | Some _ =>
       let n2 := set_reg (mutate n1 r) (aset id s (n_reg n1)) in
       (upd_conn (setn cl1 i n2) (Conn c i (Some id) false), [Out c (OConnAck 0); Deadline c (keepalive_ms s)])
@@ -353,7 +353,7 @@ Definition do_subscribe (cl : cluster) (c : string) (mid : Z) (fs : list (string
                       fs (n, s) in
     let n2 := sess_update n1 s1 in
     (* retained replay, after the SUBACK: one send per stored message per filter, at the filter's QoS, flagged *)
-    let replay := flat_map (fun fq => map (fun r => (snd fq, LMsg (p_topic (r_pub r)) (p_payload (r_pub r)) (p_qos (r_pub r)) (p_retain (r_pub r)) false))
+    let replay := flat_map (fun fq => map (fun r => (snd fq, LMsg (p_topic (r_pub r)) (p_payload (r_pub r)) (p_qos (r_pub r)) (p_retain (r_pub r)) (p_dup (r_pub r))))
                                           (ret_get (n_d n2) (prefix_mp (ss_mp s) (fst fq)))) fs in
     let r := fold_left (fun acc qm => let r := send (cl_bad cl) (fst acc) [(ss_id s, fst qm)] (snd qm) in (fst r, (snd acc ++ snd r)%list))
                        replay (n2, []) in
